@@ -207,39 +207,62 @@ SINKS = ["bytesio", "recsink", "keepsink", "asyncio", "socketfile", "bufferedpip
 SOURCES = ["bytesio", "recsource", "buffered_dribble", "socketfile"]
 
 
-def gen_stream_shard(args) -> dict:
+def gen_stream_inputs(args) -> dict:
+    """Phase 1: message sequences (class, value, variant) - the specification encodes the variants."""
     path, lo, hi, seed = args
-    codec_driver.limit_memory(4.0)
     classes = sorted(project.all_entity_classes(), key=project.sid_of)
     payloads = [c for c in classes if getattr(c, "__type__").name in ("request", "response")]
-    schemas, cases = {}, []
+    schemas, seqs, enc_cases = {}, [], []
     for i in range(lo, hi):
         r = random.Random(seed * 9176 + i)
-        msgs, descs = [], []
-        for _ in range(r.choice([1, 1, 2, 3])):
-            pc = r.choice(payloads)
-            hc = pc.__header_schema__
-            for cls in (hc, pc):
-                schema = project.project_schema(cls)
-                schemas[schema["sid"]] = schema
-                v = Sampler(r.randrange(10**9), profile=r.choice(["mixed", "max", "min"])).value(schema, budget=60)
-                msgs.append((cls, project.build_entity(v, schema)))
-                descs.append({"sid": schema["sid"], "value": v})
-        if r.random() < 0.3:       # a lone nested / data entity in between: any class may be on the stream
-            cls = r.choice(classes)
+        descs = []
+        def add(cls, prof):
             schema = project.project_schema(cls)
             schemas[schema["sid"]] = schema
-            v = Sampler(r.randrange(10**9)).value(schema, budget=40)
-            msgs.append((cls, project.build_entity(v, schema)))
-            descs.append({"sid": schema["sid"], "value": v})
+            v = Sampler(r.randrange(10**9), profile=prof).value(schema, budget=60)
+            var = codec_driver.sample_variant(r, canonical=(not schema["flex"]) or r.random() < 0.5)
+            descs.append({"sid": schema["sid"], "value": v, "var": var})
+            enc_cases.append({"id": f"s{i}m{len(descs) - 1}", "sid": schema["sid"], "value": v, "var": var})
+        for _ in range(r.choice([1, 1, 2, 3])):
+            pc = r.choice(payloads)
+            for cls in (pc.__header_schema__, pc):
+                add(cls, r.choice(["mixed", "max", "min"]))
+        if r.random() < 0.3:       # a lone nested / data entity in between: any class may be on the stream
+            add(r.choice(classes), "mixed")
         pre = bytes(r.randrange(256) for _ in range(r.choice([0, 1, 5])))
         post = bytes(r.randrange(256) for _ in range(r.choice([0, 2, 9])))
+        seqs.append({"id": f"s{i}", "msgs": descs, "pre": list(pre), "post": list(post)})
+    codec_driver.write_shard(path, schemas, enc_cases)
+    with open(path + ".seqs", "w") as f:
+        json.dump(seqs, f)
+    return {"path": path, "cases": len(enc_cases)}
+
+
+def gen_stream_shard(args) -> dict:
+    """Phase 2: write each sequence to every sink kind; read the PEER's stream (variants encoded by
+    the specification) from every source kind."""
+    in_path, encoded, path = args
+    codec_driver.limit_memory(4.0)
+    with open(in_path) as f:
+        schemas = json.load(f)["schemas"]
+    with open(in_path + ".seqs") as f:
+        seqs = json.load(f)
+    enc = {e["id"]: project.unbabs(e["b"]) for e in encoded}
+    import importlib
+    cases = []
+    for sq in seqs:
+        msgs, sch = [], []
+        for m in sq["msgs"]:
+            mod, _, qual = m["sid"].partition(":")
+            cls = getattr(importlib.import_module(mod), qual)
+            schema = project.project_schema(cls)
+            msgs.append((cls, project.build_entity(m["value"], schema)))
+            sch.append(schema)
+        pre, post = bytes(sq["pre"]), bytes(sq["post"])
         sinks = [write_all(k, pre, post, msgs) for k in SINKS]
-        # the sources read what the specification-conforming in-memory sink holds
-        ref = project.unbabs(sinks[0]["data"])
-        sch = [project.project_schema(c) for c, _ in msgs]
-        sources = [read_all(k, ref, len(pre), msgs, sch) for k in SOURCES]
-        cases.append({"id": f"s{i}", "msgs": descs, "pre": babs(pre), "post": babs(post),
+        peer = pre + b"".join(enc[f"{sq['id']}m{j}"] for j in range(len(msgs))) + post
+        sources = [read_all(k, peer, len(pre), msgs, sch) for k in SOURCES]
+        cases.append({"id": sq["id"], "msgs": sq["msgs"], "pre": babs(pre), "post": babs(post), "peer": babs(peer),
                       "sinks": sinks, "sources": sources})
     with open(path, "w") as f:
         json.dump({"schemas": schemas, "cases": cases}, f, separators=(",", ":"))
@@ -263,8 +286,12 @@ def check_C07(chk: Check, replay) -> None:
     model_check_encoder_machine(chk)       # AppendOnly, SinkIsPrefix: staged bytes are never visible early
     n = 4000 if chk.tier == "thorough" else 320
     K = 16
-    args = [(os.path.join(chk.scratch, f"st{i}.json"), i * n // K, (i + 1) * n // K, chk.seed + 1) for i in range(K)]
-    infos = pmap(gen_stream_shard, args)
+    args = [(os.path.join(chk.scratch, f"stin{i}.json"), i * n // K, (i + 1) * n // K, chk.seed + 1) for i in range(K)]
+    ins = pmap(gen_stream_inputs, args)
+    from .checks_codec import encode_with_spec
+    encoded = encode_with_spec(chk, [i["path"] for i in ins])
+    infos = pmap(gen_stream_shard, [(i["path"], encoded[i["path"]], os.path.join(chk.scratch, f"st{k}.json"))
+                                    for k, i in enumerate(ins)])
     with open(infos[0]["path"]) as f:
         shard = json.load(f)
     can = copy.deepcopy(shard["cases"][0])
